@@ -75,6 +75,24 @@ a=fingerprint:sha-256 00:11:22:33:44:55:66:77:88:99:AA:BB:CC:DD:EE:FF:00:11:22:3
 const TEMPLATE_SDES: &str = "v=0\r\no=- 1 1 IN IP4 10.0.0.1\r\ns=call\r\nc=IN IP4 10.0.0.1\r\nt=0 0\r\nm=audio 40000 RTP/SAVP 0 8 101\r\na=mid:0\r\n\
 a=rtpmap:0 PCMU/8000\r\na=rtpmap:101 telephone-event/8000\r\na=crypto:1 AES_CM_128_HMAC_SHA1_80 inline:MTIzNDU2Nzg5MDEyMzQ1Njc4OTAxMjM0NTY3ODkw|2^31 UNENCRYPTED_SRTCP\r\na=sendrecv\r\n";
 
+/// every line of `base` with its value cut to 0..n tokens and with one token more (n = its token count): the attribute parsers
+/// index `parts[k]` after a length check — each count on each attribute is a different check
+fn token_variants(base: &str) -> Vec<String> {
+    let lines: Vec<&str> = base.split("\r\n").filter(|l| !l.is_empty()).collect();
+    let mut out = vec![];
+    for (i, l) in lines.iter().enumerate() {
+        let toks: Vec<&str> = l.split(' ').collect();
+        let mut vars: Vec<String> = (1..toks.len()).map(|k| toks[..k].join(" ")).collect();
+        vars.push(format!("{l} 7"));
+        // the first token itself cut after the attribute name's colon (`a=ssrc-group:` / `a=ssrc-group`)
+        if let Some(c) = toks[0].find(':') { vars.push(toks[0][..=c].to_string()); vars.push(toks[0][..c].to_string()); }
+        // sub-tokens of `;`- and `/`-separated values
+        for sep in [';', '/', '|'] { if let Some(c) = l.rfind(sep) { vars.push(l[..c].to_string()); vars.push(l[..=c].to_string()); } }
+        for v in vars { if v != *l { let mut ls: Vec<String> = lines.iter().map(|x| x.to_string()).collect(); ls[i] = v; out.push(ls.join("\r\n") + "\r\n"); } }
+    }
+    out
+}
+
 fn mutate_sdp(rng: &mut Rng, base: &str) -> String {
     let mut lines: Vec<String> = base.split("\r\n").filter(|l| !l.is_empty()).map(|s| s.to_string()).collect();
     let nums = ["0", "1", "65535", "65536", "4294967295", "4294967296", "18446744073709551615", "18446744073709551616", "-1", "+5", "", "99999999999999999999999999", "1e9", " 7"];
@@ -180,17 +198,18 @@ fn big_sdp(rng: &mut Rng, k: usize) -> String {
     s
 }
 
-/// Offerer side: our own offer is applied locally, then a (mutated) ANSWER / PRANSWER derived from it arrives
-fn run_sdpanswer(run: &mut Run, live: &LivePc, rng: &mut Rng, nt: bool) {
+/// Offerer side: our own offer is applied locally, then a (mutated) ANSWER / PRANSWER derived from it arrives, then a re-INVITE
+/// (a second, mutated offer on the now-stable connection) — in WebRTC, SDES and plain-RTP mode (the latter two read `c=` / `m=`
+/// addresses of the re-offer). Input = `answer <seed>`; everything is derived from the seed.
+fn run_sdpanswer_seed(run: &mut Run, live: &LivePc, seed: u64, nt: bool) {
     let l = std::panic::AssertUnwindSafe(live);
-    let seed = rng.next();
     let mut r2 = Rng::new(seed);
-    exec(run, "sdpset", &format!("answer {seed}"), "PeerConnection::set_remote_description(answer)", nt, Some((256, 4 << 20, 4096)), move || {
+    exec(run, "sdpset", &format!("answer {seed}"), "PeerConnection::set_remote_description(answer)", nt, Some((256, 1 << 20, 4096)), move || {
         l.rt.block_on(async {
-            let pc = PeerConnection::new(cfg(0));
+            let mode = r2.below(3) as u8;
+            let pc = PeerConnection::new(cfg(mode));
             let _ = pc.add_transceiver(rustrtc::MediaKind::Audio, rustrtc::TransceiverDirection::SendRecv);
-            let _ = pc.add_transceiver(rustrtc::MediaKind::Video, rustrtc::TransceiverDirection::SendRecv);
-            let _ = pc.create_data_channel("x", None);
+            if mode == 0 { let _ = pc.add_transceiver(rustrtc::MediaKind::Video, rustrtc::TransceiverDirection::SendRecv); let _ = pc.create_data_channel("x", None); }
             if let Ok(offer) = pc.create_offer().await {
                 let text = offer.to_sdp_string();
                 let _ = pc.set_local_description(offer);
@@ -198,8 +217,8 @@ fn run_sdpanswer(run: &mut Run, live: &LivePc, rng: &mut Rng, nt: bool) {
                 let ty = if r2.chance(1, 4) { SdpType::Pranswer } else { SdpType::Answer };
                 if let Ok(d) = SessionDescription::parse(ty, &ans_text) {
                     if tokio::time::timeout(std::time::Duration::from_secs(5), pc.set_remote_description(d)).await.is_err() { panic!("set_remote_description(answer) did not return within 5 s"); }
-                    // re-INVITE: a second (mutated) offer on the now-stable connection
-                    let re = mutate_sdp(&mut r2, &text);
+                    // re-INVITE: a mutated offer, or the offer with one line cut to fewer / more tokens
+                    let re = if r2.chance(1, 2) { mutate_sdp(&mut r2, &text) } else { let tv = token_variants(&text); if tv.is_empty() { text.clone() } else { r2.pick(&tv).clone() } };
                     if let Ok(d2) = SessionDescription::parse(SdpType::Offer, &re) { let _ = tokio::time::timeout(std::time::Duration::from_secs(5), pc.set_remote_description(d2)).await; }
                 }
             }
@@ -208,6 +227,7 @@ fn run_sdpanswer(run: &mut Run, live: &LivePc, rng: &mut Rng, nt: bool) {
         "noncompared".into()
     });
 }
+fn run_sdpanswer(run: &mut Run, live: &LivePc, rng: &mut Rng, nt: bool) { let seed = rng.next(); run_sdpanswer_seed(run, live, seed, nt); }
 
 /// SDES (`TransportMode::Srtp`): our offer applied locally, then an answer whose `a=crypto` line is attacker-chosen; the connection
 /// is left to bring its transport up (`setup_sdes` runs in the connection's own task — a panic there is seen by the process-wide counter)
@@ -254,9 +274,9 @@ thread_local! { static UP: std::cell::Cell<bool> = const { std::cell::Cell::new(
 fn run_sdpset(run: &mut Run, live: &LivePc, mode: u8, s: &str, nt: bool) {
     let t = s.to_string();
     let l = std::panic::AssertUnwindSafe(live);
-    // allocation oracle: 2·(256·len + 4 MiB) + 512 — a media section costs a transceiver, receiver, track ring …
+    // allocation oracle: 2·(256·len + 1 MiB) + 512 — a media section costs a transceiver, receiver, track ring …
     // (tens of KB), so the constant is large; what it excludes is growth that is super-linear in the description
-    exec(run, "sdpset", &format!("{mode} {}", hex(s.as_bytes())), "PeerConnection::set_remote_description", nt, Some((256, 4 << 20, s.len() as u64)), move || {
+    exec(run, "sdpset", &format!("{mode} {}", hex(s.as_bytes())), "PeerConnection::set_remote_description", nt, Some((256, 1 << 20, s.len() as u64)), move || {
         let r = set_remote(&l, mode, &t);
         if r == "timeout" { panic!("set_remote_description did not return within 5 s"); }
         "noncompared".into()
@@ -293,6 +313,9 @@ pub fn special(run: &mut Run, rng: &mut Rng, thorough: bool) {
         let s = mutate_sdp(rng, if sdes { TEMPLATE_SDES } else { TEMPLATE });
         run_sdpset(run, &live, if sdes { rng.range(1, 2) as u8 } else { rng.below(3) as u8 }, &s, true);
     }
+    for (mode, base) in [(0u8, TEMPLATE), (1, TEMPLATE_SDES), (2, TEMPLATE_SDES)] {
+        for v in token_variants(base) { run_sdpparse(run, &v, true); run_sdpset(run, &live, mode, &v, true); }
+    }
     // large descriptions (many sections / candidates / rids, 60 KB lines) and the answer / re-INVITE paths
     for k in if thorough { vec![1usize, 8, 64, 300, 1000] } else { vec![1usize, 8, 64, 200] } {
         let s = big_sdp(rng, k);
@@ -301,7 +324,7 @@ pub fn special(run: &mut Run, rng: &mut Rng, thorough: bool) {
         let m = mutate_sdp(rng, &s);
         run_sdpset(run, &live, rng.below(3) as u8, &m, true);
     }
-    for _ in 0..(if thorough { 1_500 } else { 60 }) { run_sdpanswer(run, &live, rng, true); }
+    for _ in 0..(if thorough { 3_000 } else { 400 }) { run_sdpanswer(run, &live, rng, true); }
     for key in 0..SDES_KEYS.len() { for suite in 0..(if thorough { SDES_SUITES.len() } else { 3 }) { run_sdpsdes(run, &live, key, suite, 400, true); } }
     for _ in 0..(if thorough { 20_000 } else { 800 }) {
         let n = rng.below(200) as usize;
@@ -318,6 +341,7 @@ pub fn replay_special(run: &mut Run, stream: &str, a: &[&str]) -> bool {
         ("cand", 1) => { run_cand(run, &String::from_utf8_lossy(&unhex(a[0])), true); true }
         ("sdpmid", 1) => { let l = LivePc::new(); run_sdpmid(run, &l, a[0], true); true }
         ("sdpparse", 1) => { run_sdpparse(run, &String::from_utf8_lossy(&unhex(a[0])), true); true }
+        ("sdpset", 2) if a[0] == "answer" => { let l = LivePc::new(); run_sdpanswer_seed(run, &l, a[1].parse().unwrap_or(0), true); true }
         ("sdpset", 2) => { let l = LivePc::new(); run_sdpset(run, &l, a[0].parse().unwrap_or(0), &String::from_utf8_lossy(&unhex(a[1])), true); true }
         _ => false,
     }
